@@ -605,7 +605,8 @@ class Signomial(object):
         alpha = np.array(alpha)
         c = np.array(c)
         s = Signomial(alpha, c)
-        s._alpha_c = d
+        # s.alpha_c is built from the rounded and consolidated (alpha, c) on first use;
+        # the caller's dict is neither normalized nor ours to keep.
         return s
 
 
